@@ -35,6 +35,8 @@ def stages(tier, rng, only=None):
             c["reuse"]["kind"] = "then_other" if c["kseed"] % 2 else "other"
         return cs
     out.append(ac.stage("reuse_other_dataset", PID, then_other, _nt))
+    out.append(ac.stage("transposed_pairs", PID, lambda: ac.pair_sequence_cases(ac.transposed_pairs(), ["Copeland"],
+                                                                               ac.PRESET), _nt))
     if tier == "thorough":
         sch = ac.PRESET + ac.grid_sample(rng, 14)
         out.append(ac.stage("grid3x3", PID, lambda: ac.cases(grids.datasets(3, 3), ["Copeland"], sch, flags=(1,)), _nt))
